@@ -78,7 +78,13 @@ def parse_font_families(attr_value: str) -> typing.List[str]:
 
     is_quoted = m.lastgroup in ("single_quote", "double_quote")
 
-    escaped_family = _FAMILIES_ESCAPED_CHAR.sub(r"\1", m.group(m.lastgroup))
+    raw_family = m.group(m.lastgroup)
+
+    if not is_quoted:
+      # white space between an unquoted family name and the following comma is not part of the name
+      raw_family = re.sub(r"(?<!\\)\s+$", "", raw_family)
+
+    escaped_family = _FAMILIES_ESCAPED_CHAR.sub(r"\1", raw_family)
 
     if not is_quoted and escaped_family in styles.GenericFontFamilyType.__members__:
       rslt.append(styles.GenericFontFamilyType(escaped_family))
